@@ -237,6 +237,13 @@ func ParseLql(lql string) (*Lql, error) {
 	if err != nil {
 		return nil, err
 	}
+	if res.Select == nil && res.Describe == nil && res.Truncate == nil && res.Show == nil && res.Create == nil && res.Delete == nil {
+		// the grammar accepts a statement keyword with nothing behind it, but keeps no trace of it
+		if !strings.EqualFold(strings.TrimSpace(lql), "SELECT") {
+			return nil, fmt.Errorf("incomplete statement \"%s\"", lql)
+		}
+		res.Select = &Select{}
+	}
 	return res, err
 }
 
